@@ -333,6 +333,24 @@ Theorem C04_trunc_keeps_block_contract : forall (R : CRing) (L : Type) ladd tot 
 Proof. exact ltrunc_ok. Qed.
 Print Assumptions C04_trunc_keeps_block_contract.
 
+(* also partial clause: the stopping test of variational_compress (generated expression variational_error_expr in
+   D = mps.distance(mps_old), S = <mps|mps>) is homogeneous of degree 0 in the scale of the object ... *)
+Theorem C04_variational_error_degree_zero : hdeg2 variational_error_expr = Some 0%Z.
+Proof. exact variational_error_degree_zero. Qed.
+Print Assumptions C04_variational_error_degree_zero.
+(* ... and, in every structure whose multiplication / division / square root obey sqrt(c*c*x) = c*sqrt x and
+   (c*a)/(c*b) = a/b (the positive reals), its value is unchanged when the object is multiplied by c.  (The two
+   laws are hypotheses: there is no executable real-number instance in this development; the degree statement above
+   is hypothesis-free.) *)
+Theorem C04_variational_error_scale_invariant : forall (K : Type) (kmul kdiv : K -> K -> K) (ksqrt : K -> K),
+  (forall c x, ksqrt (kmul (kmul c c) x) = kmul c (ksqrt x)) ->
+  (forall c a b, kdiv (kmul c a) (kmul c b) = kdiv a b) ->
+  forall c dist normsq,
+    heval kdiv ksqrt (kmul c dist) (kmul (kmul c c) normsq) variational_error_expr =
+    heval kdiv ksqrt dist normsq variational_error_expr.
+Proof. exact variational_error_scale_invariant. Qed.
+Print Assumptions C04_variational_error_scale_invariant.
+
 (* ------------------------------------------------------------------------------------------------ *)
 (* non-vacuity                                                                                      *)
 (* ------------------------------------------------------------------------------------------------ *)
